@@ -200,7 +200,7 @@ def run(ctx):
             r.violate(mg.id, "merge-coverage", f"update() mutates {sorted(Wu)} but merge() does not write {sorted(missing_w)} / does not read other.{sorted(missing_r)}: "
                       "the contribution of a partition's partial state to these fields is lost when states are combined (result depends on the partition count)",
                       ms["merge"]["file"], ms["merge"]["line"])
-    return [r, rule_valid(facts, impls)]
+    return [r, rule_valid(facts, impls), rule_simul(facts)]
 
 
 CLAIM = {
@@ -212,3 +212,80 @@ CLAIM = {
     "note": "trusted: rustc MIR; a &mut borrow of a field counts as a write, any mention as a read; whole-state operations (swap/assign) cover all fields",
     "technique": "static analysis: MIR field-effect summaries + sibling agreement (rustc_private driver)",
 }
+
+
+def _field_read_sites(fn, rv, at, depth=8):
+    """[(block, stmt idx, field)] — reads of `self.<field>` (parameter 1) whose value flows into the rvalue, through temporaries"""
+    from .c10carry import _self_field
+    out, seen = [], set()
+
+    def walk(x, b, i, d):
+        if d < 0:
+            return
+        if isinstance(x, list):
+            if len(x) == 2 and x[0] in ("c", "m") and isinstance(x[1], list) and len(x[1]) == 2 and isinstance(x[1][0], int):
+                pl = x[1]
+                if pl[0] == 1 and pl[1] and pl[1][0] == "*":
+                    fld = _self_field(fn, pl)
+                    if fld:
+                        out.append((b, i, fld))
+                    return
+                l = pl[0]
+                if l in seen or (1 <= l <= fn.argc):
+                    return
+                seen.add(l)
+                for dd in fn.defs.get(l, []):
+                    if dd[0] in ("a", "pa"):
+                        walk(dd[3], dd[1], dd[2], d - 1)
+                    elif dd[0] in ("call", "pcall"):
+                        for a in dd[2].args:
+                            walk(a, dd[1], 10 ** 6, d - 1)
+                return
+            if len(x) >= 3 and x[0] in ("ref", "raw") and isinstance(x[2], list) and len(x[2]) == 2 and isinstance(x[2][0], int):
+                walk(["c", x[2]], b, i, d)
+                return
+            for y in x:
+                walk(y, b, i, d)
+    walk(rv, at[0], at[1], depth)
+    return out
+
+
+def rule_simul(facts):
+    """merge(self, other) computes the combined state from the two *input* states. A field of `self` that has already been
+    overwritten holds the combined value; reading it afterwards to compute a different field mixes pre- and post-merge state
+    (e.g. Welford/Chan: the delta of the two input means taken against the already combined mean). Decided: no value read from
+    `self.F` after a write of `self.F` flows into a write of another field."""
+    from .c10carry import _self_field
+    r = RuleResult("C07-SIMUL", "in every aggregate-state merge, a field of self that was already overwritten is not read to compute a different field "
+                   "(the combined state is a function of the two input states)", floor=20)
+    for rec in facts.all_fns(["glaredb_core"]):
+        fid = rec["id"]
+        if not (fid.endswith("::merge") or fid.endswith("::combine")) or "AggregateState" not in fid:
+            continue
+        fn = Fn(rec)
+        if fn.argc < 1 or not fn.locals[1].startswith("&mut"):
+            continue
+        r.functions.add(fn.id)
+        writes = []
+        for b, i, pl, rv, ln in fn.assigns():
+            if pl[0] == 1 and pl[1] and pl[1][0] == "*":
+                fld = _self_field(fn, pl)
+                if fld:
+                    writes.append((b, i, fld, rv, ln))
+        bad = []
+        for b, i, g, rv, ln in writes:
+            for rb, ri, f_ in _field_read_sites(fn, rv, (b, i)):
+                if f_ == g:
+                    continue
+                for wb, wi, wf, _wrv, wln in writes:
+                    if wf != f_:
+                        continue
+                    after = (wb == rb and wi < ri) or any(rb in fn.reachable_from(s_) for s_ in fn.succ[wb])
+                    if after:
+                        bad.append((g, f_, ln, wln))
+        r.inst({"fn": fn.id, "fields_written": sorted({w[2] for w in writes}), "stale_mix": [f"{g}<-{f_}" for g, f_, _, _ in bad]}, not bad)
+        for g, f_, ln, wln in sorted(set(bad)):
+            r.violate(fn.id, f"post-merge-read:{f_}->{g}", f"`self.{g}` (line {ln}) is computed from `self.{f_}` read after `self.{f_}` was overwritten at line {wln}: "
+                      "the combined value is used where the formula needs the input state's value, so the result depends on how rows were split into partial states",
+                      rec["file"], ln)
+    return r
